@@ -34,6 +34,33 @@ NAMED = {  # declared in the static prelude of shapes_gen.go
     "myLow": "int32", "MyF": "float64",
 }
 EMBEDDABLE = ["MyInt", "MyStr", "MyI8", "MyBool", "Empty", "myLow", "MyI16"]
+# HOMONYMOUS types: distinct types with the same reflect String().  reflect qualifies a named type by its
+# package name only and ignores the scope of the declaration, so a type declared inside a function prints
+# (and has the Name and PkgPath) of the package-level type of that name.  A "homonym" shape is declared
+# inside the body of the func init() that registers it, after local declarations `type X <underlying>`
+# that shadow NAMED ones; inside such a shape the text X means the local type and pkgX (an alias of the
+# static prelude; an alias prints as the aliased type) the package-level one.  Candidates per name: the
+# first underlying type is the one of the package-level type (same size, same kind: nothing but type
+# identity tells the two apart), the others differ in size or kind.
+HOMONYM = {
+    "MyInt": ["int64", "string", "int8", "[]byte"], "MyStr": ["string", "int64", "[2]string"],
+    "MyI8": ["int8", "bool", "int64"], "MyBool": ["bool", "uint8", "string"],
+    "MyPair": ["struct { A int8; B int64 }", "struct { B int64; A int8 }", "int64"], "Empty": ["struct{}", "[0]int32"],
+    "MyI16": ["int16", "uint16", "string"], "myLow": ["int32", "float32", "int64"], "MyF": ["float64", "int64"],
+    "MyBytes": ["[]byte", "[]string", "string"], "MyArr": ["[5]byte", "[5]int8"],
+}
+PKG = "pkg"   # alias prefix: type pkgMyInt = MyInt
+
+
+def homonym_of(t, local):
+    """the type text of the namesake of t inside a homonym shape with the local declarations `local`, or None"""
+    stars = len(t) - len(t.lstrip("*"))
+    b = t[stars:]
+    if b in local:
+        return "*" * stars + PKG + b
+    if b.startswith(PKG) and b[len(PKG):] in local:
+        return "*" * stars + b[len(PKG):]
+    return None
 # types a request may confuse with the right one (same size, or same underlying type)
 SIMILAR = {
     "int64": ["uint64", "int", "float64", "MyInt", "*int"], "int": ["int64", "uint", "uintptr"],
@@ -51,10 +78,12 @@ TAG_KEYS = ["A", "B", "X", "Y", "id", "name", "k", "key", "Val", "nope", "a b", 
 
 
 class Gen:
-    def __init__(self, rng, sid, prop):
+    def __init__(self, rng, sid, prop, local=None):
         self.rng = rng
         self.sid = sid
         self.prop = prop
+        self.local = local or {}   # homonym shape: NAMED name -> underlying type of its function-local namesake
+        self.pairs = [x for n in self.local for x in (n, PKG + n)]
         self.structs = []      # [{"name", "fields"}] dependency order
         self.k = 0
 
@@ -65,6 +94,9 @@ class Gen:
 
     def basic_type(self):
         r = self.rng
+        if self.pairs and r.random() < 0.5:
+            t = r.choice(self.pairs)
+            return "*" + t if r.random() < 0.12 else t
         if r.random() < 0.25:
             return r.choice(list(NAMED))
         return r.choice(list(BASIC))
@@ -114,8 +146,14 @@ class Gen:
                 f = {"name": tname, "embed": "ptr", "type": "*" + tname, "struct": True}
             elif roll < 0.35:
                 t = r.choice(EMBEDDABLE)
+                if self.local:
+                    both = [x for x in EMBEDDABLE if x in self.local]
+                    if both and r.random() < 0.7:
+                        t = r.choice(both)
+                    if t in self.local and r.random() < 0.5:
+                        t = PKG + t      # the field is then called pkgX
                 if t not in used:
-                    ptr = r.random() < 0.3 and t != "Empty"
+                    ptr = r.random() < 0.3 and not t.endswith("Empty")
                     f = {"name": t, "embed": "ptr" if ptr else "val", "type": ("*" + t) if ptr else t, "struct": False}
             elif roll < 0.43 and depth < 4:
                 tname = self.struct(depth + 1, 1, 3) if r.random() < 0.7 else "MyPair"
@@ -143,7 +181,15 @@ def gen_shape(rng, sid, prop):
     return {"id": sid, "structs": g.structs}
 
 
-def fixed_shapes():
+def gen_homonym_shape(rng, sid, prop):
+    names = rng.sample(sorted(HOMONYM), rng.randint(1, 3))
+    local = {n: (HOMONYM[n][0] if rng.random() < 0.4 else rng.choice(HOMONYM[n])) for n in names}
+    g = Gen(rng, sid, prop, local)
+    g.struct(0, 2, 8, top=True)
+    return {"id": sid, "structs": g.structs, "local": local}
+
+
+def fixed_shapes(homonyms=False):
     """seed-independent shapes: the corner cases worth having in every run"""
     def S(name, *fields):
         return {"name": name, "fields": list(fields)}
@@ -171,6 +217,26 @@ def fixed_shapes():
                                            F("e", "Empty"))]})
     out.append({"id": "K7", "structs": [S("k7in", F("a", "int8"), F("B", "any")),
                                         S("K7", F("p", "*k7in"), E("k7in"), F("q", "MyPair"), F("r", "[3]int16"))]})
+    if not homonyms:
+        return out
+    out = []
+    # homonymous types (see HOMONYM): inside these shapes X is a function-local type, pkgX the package-level one
+    # the homonym first / the real type first; same and different underlying types
+    out.append({"id": "K8", "local": {"MyInt": "string", "MyI8": "int8"},
+                "structs": [S("K8", F("A", "MyInt"), F("B", "pkgMyInt"), F("C", "int64"), F("D", "MyI8"), F("E", "pkgMyI8"), F("F", "string"))]})
+    out.append({"id": "K9", "local": {"MyInt": "int64", "MyStr": "string", "MyPair": "struct { B int64; A int8 }"},
+                "structs": [S("K9", F("A", "pkgMyInt"), F("B", "MyInt"), F("S", "MyStr"), F("P", "pkgMyPair"), F("Q", "MyPair"),
+                              F("R", "*MyInt"), F("T", "*pkgMyInt"))]})
+    # across embedding depth, as embedded fields (the field of the alias is called pkgMyInt), behind an embedded pointer
+    out.append({"id": "K10", "local": {"MyInt": "int64", "MyBool": "bool"},
+                "structs": [S("K10C", F("U", "pkgMyBool"), E("MyInt", struct=False)),
+                            S("K10B", F("V", "MyBool"), E("K10C")),
+                            S("K10P", F("W", "pkgMyInt"), F("X", "MyInt")),
+                            S("K10", F("Y", "int8"), E("K10B"), E("pkgMyInt", struct=False), E("K10P", ptr=True), F("Z", "MyBool"))]})
+    # only one of the two is present: a request for its namesake must fail loudly
+    out.append({"id": "K11", "local": {"MyInt": "int64", "MyStr": "string", "MyI16": "uint16", "Empty": "struct{}", "MyBytes": "[]byte"},
+                "structs": [S("K11In", F("N", "pkgMyBytes"), E("Empty", struct=False)),
+                            S("K11", F("A", "MyInt"), F("B", "pkgMyStr"), F("C", "*MyI16"), E("K11In"), F("D", "int64"), F("E", "string"))]})
     return out
 
 
@@ -180,6 +246,12 @@ def shapes_for(seed, tier, prop, count=None):
     specs = fixed_shapes()
     for i in range(n):
         specs.append(gen_shape(rng, "S%d" % i, prop))
+    # homonym shapes come last, the random ones from their own stream: the other shapes of a seed and the requests
+    # the driver draws for them stay what they were
+    specs += fixed_shapes(homonyms=True)
+    hrng = random.Random("%s/%s" % (seed, "homonyms"))
+    for i in range(max(2, n // 11)):
+        specs.append(gen_homonym_shape(hrng, "H%d" % i, prop))
     return specs
 
 
@@ -218,8 +290,16 @@ def value_paths(spec):
     return res
 
 
-def go_type_decls(spec):
+def go_local_decls(spec):
+    return ["type %s %s" % (n, u) for n, u in spec.get("local", {}).items()]
+
+
+def go_type_decls(spec, summary=False):
     out = []
+    if summary and spec.get("local"):
+        out.append("// declared inside a function, after these declarations, which shadow the package-level types of the same")
+        out.append("// names (reflect prints both alike); %sX is an alias of the package-level X" % PKG)
+        out += go_local_decls(spec)
     for s in spec["structs"]:
         out.append("type %s struct {" % s["name"])
         for f in s["fields"]:
@@ -249,14 +329,34 @@ def instantiations(rng, spec, props, budget):
         if e["inline"] and e["type"] not in inline_types:
             inline_types.append(e["type"])
     forty, newn, derive = [], [], []
+    # homonym shapes: the namesakes of the field types; `lonely`: those no field has (while a field of a type that prints alike exists)
+    local = spec.get("local", {})
+    namesakes = []
+    for t in types:
+        h = homonym_of(t, local)
+        if h and h not in namesakes:
+            namesakes.append(h)
+    lonely = [h for h in namesakes if h not in types]
+    twins = [t for t in types if homonym_of(t, local) in types]
     if "C03" in props:
-        absent = [t for t in ["MyStr", "string", "uint16", "[]uint8", "*MyInt", "struct{}", "*" + T, T] if t not in types]
-        for t in types + rng.sample(absent, min(3, len(absent))):
+        absent = [t for t in ["MyStr", "string", "uint16", "[]uint8", "*MyInt", "struct{}", "*" + T, T] if t not in types and t not in lonely]
+        for t in types + lonely + rng.sample(absent, min(3, len(absent))):
             forty.append(t)
         for k in range(budget.get("newn", 5)):
             n = rng.randint(1, 9) if k else 9
             tup = [rng.choice(types) if rng.random() < 0.9 else rng.choice(absent or types) for _ in range(n)]
             newn.append(tup)
+        if local:
+            # both namesakes in one request, in both orders; tuples of types that are all present but for one lonely namesake
+            for t in twins[:4]:
+                newn.append([t, homonym_of(t, local)])
+            if twins:
+                newn.append([rng.choice(twins + types) for _ in range(rng.randint(3, 9))])
+            for h in lonely[:3]:
+                newn.append([h])
+                tup = [rng.choice(types) for _ in range(rng.randint(2, 5))]
+                tup[rng.randrange(len(tup))] = h
+                newn.append(tup)
     if "C01" in props or "C02" in props or "C04" in props:
         foc = inline_types or types
         # every inline type once, by ForProduct1 and ForSpectrum1
@@ -271,7 +371,15 @@ def instantiations(rng, spec, props, budget):
         t = rng.choice(foc)
         derive.append(("product", False, [rng.choice(foc), t, t]))
         derive.append(("shape", False, [t, rng.choice(foc), t]))
+        inline_twins = [t for t in foc if homonym_of(t, local) in foc]
+        for t in inline_twins[:4]:
+            derive.append((rng.choice(["product", "spectrum", "shape"]), False, [t, homonym_of(t, local)]))
     if "C02" in props:
+        # the namesake of a field's type is the wrong type that is hardest to tell from the right one
+        # (or, when both are fields, the right type for another field: the driver asks for it by the names of both)
+        for w in [homonym_of(t, local) for t in (inline_types or types) if homonym_of(t, local)][:6]:
+            derive.append(("product", False, [w]))
+            derive.append(("spectrum", False, [w]))
         wrong = []
         for t in (inline_types or types)[:8]:
             for w in SIMILAR.get(t, [])[:3]:
@@ -290,6 +398,9 @@ def instantiations(rng, spec, props, budget):
         derive.append(("shape", True, [foc[0], rng.choice(foc)]))
         if wrong:
             derive.append(("product", False, [rng.choice(foc), rng.choice(wrong)]))
+        for h in lonely[:3]:
+            t = homonym_of(h, local)
+            derive.append((rng.choice(["product", "spectrum", "shape"]), False, [t, h] if rng.random() < 0.5 else [h, t]))
     # dedupe
     seen, d2 = set(), []
     for d in derive:
@@ -303,11 +414,12 @@ def instantiations(rng, spec, props, budget):
 def go_shape_source(rng, spec, props, budget):
     T = spec["id"]
     L = listing(spec)
+    local = spec.get("local")
     forty, newn, derive = instantiations(rng, spec, props, budget)
-    o = [go_type_decls(spec), ""]
-    o.append("type W%s struct {\n\tPre [%d]byte\n\tS %s\n\tPost [%d]byte\n}" % (T, 64, T, 512))
-    o.append("var z%s %s" % (T, T))
-    o.append("func init() {")
+    decl = [go_type_decls(spec), ""]
+    decl.append("type W%s struct {\n\tPre [%d]byte\n\tS %s\n\tPost [%d]byte\n}" % (T, 64, T, 512))
+    decl.append("var z%s %s" % (T, T))
+    o = []
     o.append("\tshapes = append(shapes, &shapeDef{")
     o.append("\t\tID: %s, T: tyOf[%s]()," % (json.dumps(T), T))
     o.append("\t\tNewW: func() (unsafe.Pointer, unsafe.Pointer, uintptr) { w := new(W%s); return unsafe.Pointer(w), unsafe.Pointer(&w.S), unsafe.Sizeof(*w) }," % T)
@@ -336,11 +448,22 @@ def go_shape_source(rng, spec, props, budget):
     if "C04" in props:
         o.append("\t\tCombos: combos%s()," % T)
     o.append("\t})")
-    o.append("}")
+    combos = None
     if "C04" in props:
         import props.optics_c04gen as c04gen
-        o.append(c04gen.go_combos(rng, spec, L))
-    return "\n".join(o) + "\n"
+        combos = c04gen.go_combos(rng, spec, L)
+    if not local:
+        return "\n".join(decl + ["func init() {"] + o + ["}"] + ([combos] if combos else [])) + "\n"
+    # a homonym shape: everything lives in the function body, behind the shadowing declarations; the canonical
+    # names of the local types are fixed (String() + "#" + shape id) before anything asks for them
+    body = go_local_decls(spec)
+    body += ["declareType(tyOf[%s](), %s)" % (n, json.dumps(T)) for n in local]
+    body += decl + ["_ = z%s" % T]
+    if combos:
+        head = "func combos%s() []combo {" % T
+        assert combos.startswith(head)
+        body.append("combos%s := func() []combo {" % T + combos[len(head):])
+    return "\n".join(["func init() {"] + body + o + ["}"]) + "\n"
 
 
 def arity_source():
@@ -375,6 +498,14 @@ def shapes_source(specs, seed, props, tier):
          ")", "", "var _ = reflect.TypeOf", "var _ unsafe.Pointer", ""] + (["var _ optics.Lens[int, int]", ""] if "C04" in props else [])
     for n, u in NAMED.items():
         o.append("type %s %s" % (n, u))
+    # homonym shapes shadow these names with function-local types and reach the package-level ones through the aliases;
+    # the package-level types get their canonical names (plain String()) first, whatever shapes follow
+    for n in NAMED:
+        o.append("type %s%s = %s" % (PKG, n, n))
+    o.append("func init() {")
+    for n in NAMED:
+        o.append("\tdeclareType(tyOf[%s](), \"\")" % n)
+    o.append("}")
     o.append("")
     for spec in specs:
         o.append(go_shape_source(rng, spec, props, budget))
@@ -521,7 +652,7 @@ class Prelude:
 
 
 def shape_summary(sh):
-    return {"id": sh["id"], "go": go_type_decls(sh["spec"])}
+    return {"id": sh["id"], "go": go_type_decls(sh["spec"], summary=True)}
 
 
 def tname(t):
